@@ -32,6 +32,7 @@ theorem QueryRel.QGood.setRelationsBatch (run : ProbeRunner) {w : World} (q : QG
     (hne : rels.isEmpty = false) (hnd : (rels.map (·.comp)).Nodup)
     (hrt : RelsTyped w fo.filter rels)
     (hval : ∀ (r : RelID), r ∈ rels → r.target.isZero = true ∨ w.alive r.target = true)
+    (htin : ∀ (r : RelID), r ∈ rels → r.target.id < w.pool.ents.length)
     (hfew : 2 * w.tables.length ≤ maxU32) (hrows : 2 * w.entities.length < 2 ^ 32) :
     panicOf (World.setRelationsBatch run fo extra rels false w) = none ∧
     QGood (World.setRelationsBatch run fo extra rels false w).state ∧
@@ -44,7 +45,7 @@ theorem QueryRel.QGood.setRelationsBatch (run : ProbeRunner) {w : World} (q : QG
     simp only [Lock.isLocked] at this ⊢
     rw [heq]; exact this
   obtain ⟨ts, w', _, hb, pb, hlk⟩ := setRelationsBatch_rel_spec run h hl hno fo extra hc hr hne hnd
-    (fun t hlt hm _ => relCols_of_typed h.rel.sinv.toSInvMid hrt hlt hm.1) hval hcyc hl2 hfew hrows
+    (fun t hlt hm _ => relCols_of_typed h.rel.sinv.toSInvMid hrt hlt hm.1) hval htin hcyc hl2 hfew hrows
   rw [hb]
   refine ⟨rfl, ⟨⟨fl, pb.tinv, by show w'.isLocked = false; rw [pb.unlocked]; exact hl,
     fun evt => by show w'.obs.hasObservers evt = false; rw [pb.obs]; exact hno evt⟩,
@@ -66,6 +67,7 @@ inductive ReachB (run : ProbeRunner) : World → Prop
       (∀ (c : Comp), c ∈ ids → c < w.kinds.length) →
       (rels.map (·.comp)).Nodup → (∀ (r : RelID), r ∈ rels → r.comp ∈ ids) →
       (∀ (r : RelID), r ∈ rels → w.isRelComp r.comp = true) →
+      (∀ (r : RelID), r ∈ rels → r.target.id < w.pool.ents.length) →
       w.tables.length < maxU32 → w.entities.length + 1 < 2 ^ 32 →
       panicOf (opNewEntity run p ids vals rels w) = none →
       ReachB run (opNewEntity run p ids vals rels w).state
@@ -79,6 +81,7 @@ inductive ReachB (run : ProbeRunner) : World → Prop
       w.alive e = true → (w.index e.id).1 ≠ maxU32 → e.id < w.entities.length →
       rels.isEmpty = false → (rels.map (·.comp)).Nodup →
       (∀ (r : RelID), r ∈ rels → (targetOf w e.id r.comp).isSome = true) →
+      (∀ (r : RelID), r ∈ rels → r.target.id < w.pool.ents.length) →
       w.tables.length < maxU32 → w.entities.length + 1 < 2 ^ 32 →
       panicOf (opSetRelations run p e mapperIds rels w) = none →
       ReachB run (opSetRelations run p e mapperIds rels w).state
@@ -88,6 +91,7 @@ inductive ReachB (run : ProbeRunner) : World → Prop
       (∀ (c : Comp), c ∈ ids → c < w.kinds.length) →
       (rels.map (·.comp)).Nodup → (∀ (r : RelID), r ∈ rels → r.comp ∈ ids) →
       (∀ (r : RelID), r ∈ rels → w.isRelComp r.comp = true) →
+      (∀ (r : RelID), r ∈ rels → r.target.id < w.pool.ents.length) →
       w.tables.length < maxU32 → w.entities.length + 1 < 2 ^ 32 →
       panicOf (opAdd run p e ids vals rels w) = none →
       ReachB run (opAdd run p e ids vals rels w).state
@@ -104,6 +108,7 @@ inductive ReachB (run : ProbeRunner) : World → Prop
       fo.cache = none → RelsTyped w fo.filter (fo.rels ++ extra) →
       rels.isEmpty = false → (rels.map (·.comp)).Nodup → RelsTyped w fo.filter rels →
       (∀ (r : RelID), r ∈ rels → r.target.isZero = true ∨ w.alive r.target = true) →
+      (∀ (r : RelID), r ∈ rels → r.target.id < w.pool.ents.length) →
       2 * w.tables.length ≤ maxU32 → 2 * w.entities.length < 2 ^ 32 →
       ReachB run (World.setRelationsBatch run fo extra rels false w).state
 
@@ -112,11 +117,13 @@ theorem ReachB.ofReach {run : ProbeRunner} {w : World} (r : Reach run w) : Reach
   induction r with
   | init cap rel => exact .init cap rel
   | reg k _ hnp ih => exact .reg k ih hnp
-  | new p ids vals rels _ h1 h2 h3 h4 h5 h6 h7 ih => exact .new p ids vals rels ih h1 h2 h3 h4 h5 h6 h7
+  | new p ids vals rels _ h1 h2 h3 h4 h5 h6 h7 h8 ih =>
+    exact .new p ids vals rels ih h1 h2 h3 h4 h5 h6 h7 h8
   | del g _ h1 h2 h3 h4 h5 ih => exact .del g ih h1 h2 h3 h4 h5
-  | setRel p e m rels _ h1 h2 h3 h4 h5 h6 h7 h8 h9 ih => exact .setRel p e m rels ih h1 h2 h3 h4 h5 h6 h7 h8 h9
-  | add p e ids vals rels _ h1 h2 h3 h4 h5 h6 h7 h8 h9 h10 ih =>
-    exact .add p e ids vals rels ih h1 h2 h3 h4 h5 h6 h7 h8 h9 h10
+  | setRel p e m rels _ h1 h2 h3 h4 h5 h6 h7 h8 h9 h10 ih =>
+    exact .setRel p e m rels ih h1 h2 h3 h4 h5 h6 h7 h8 h9 h10
+  | add p e ids vals rels _ h1 h2 h3 h4 h5 h6 h7 h8 h9 h10 h11 ih =>
+    exact .add p e ids vals rels ih h1 h2 h3 h4 h5 h6 h7 h8 h9 h10 h11
   | query fo extra _ hq ih => exact .query fo extra ih hq
 
 /-- **every reached world is `QGood` and has no registered filter** -/
@@ -129,9 +136,9 @@ theorem reachB_qgood (run : ProbeRunner) {w : World} (r : ReachB run w) : QGood 
     obtain ⟨n, hr⟩ := ok_of_panicOf hnp
     obtain ⟨fl, ht, _, _⟩ := g.good
     exact (registerComponent_qkeep ht hr).cache he
-  | @new w p ids vals rels _ hreg hnd hin hrc hfew hrows hnp ih =>
+  | @new w p ids vals rels _ hreg hnd hin hrc htin hfew hrows hnp ih =>
     obtain ⟨g, he⟩ := ih
-    refine ⟨g.newEntity run p hreg hnd hin hrc hfew hrows hnp, ?_⟩
+    refine ⟨g.newEntity run p hreg hnd hin hrc htin hfew hrows hnp, ?_⟩
     obtain ⟨e, hok⟩ := ok_of_panicOf hnp
     obtain ⟨fl, ht, hl, hno⟩ := g.good
     exact (opNewEntity_qkeep run p ht hl hno hreg hnd hin hfew hrows hok).1.cache he
@@ -140,22 +147,25 @@ theorem reachB_qgood (run : ProbeRunner) {w : World} (r : ReachB run w) : QGood 
     refine ⟨(g.removeEntity run ha hidx hlt hfew hrows).2, ?_⟩
     obtain ⟨fl, ht, hl, hno⟩ := g.good
     obtain ⟨h2, hnf⟩ := live_of_indexed ht hidx hlt
-    obtain ⟨w3, hst, q3, _⟩ := opRemoveEntity_qkeep run ht hl hno h2 hnf ha hfew hrows
+    obtain ⟨w3, hst, q3, _⟩ := opRemoveEntity_qkeep run ht hl hno h2 hnf ha
+      (by rw [← ht.link.lenEq]; exact hlt) hfew hrows
     rw [hst]; exact q3.cache he
-  | @setRel w p e mids rels _ ha hidx hlt hne hnd hhas hfew hrows hnp ih =>
+  | @setRel w p e mids rels _ ha hidx hlt hne hnd hhas htin hfew hrows hnp ih =>
     obtain ⟨g, he⟩ := ih
-    refine ⟨g.setRelations run p ha hidx hlt hne hnd hhas hfew hrows hnp, ?_⟩
+    refine ⟨g.setRelations run p ha hidx hlt hne hnd hhas htin hfew hrows hnp, ?_⟩
     obtain ⟨u, hok⟩ := ok_of_panicOf hnp
     obtain ⟨fl, ht, hl, hno⟩ := g.good
     obtain ⟨h2, hnf⟩ := live_of_indexed ht hidx hlt
-    exact (opSetRelations_qkeep run p ht hl hno h2 hnf ha hne hnd hhas hrows hok).cache he
-  | @add w p e ids vals rels _ ha hidx hlt hreg hnd hin hrc hfew hrows hnp ih =>
+    exact (opSetRelations_qkeep run p ht hl hno h2 hnf ha
+      (by rw [← ht.link.lenEq]; exact hlt) hne hnd hhas hrows hok).cache he
+  | @add w p e ids vals rels _ ha hidx hlt hreg hnd hin hrc htin hfew hrows hnp ih =>
     obtain ⟨g, he⟩ := ih
-    refine ⟨g.add run p ha hidx hlt hreg hnd hin hrc hfew hrows hnp, ?_⟩
+    refine ⟨g.add run p ha hidx hlt hreg hnd hin hrc htin hfew hrows hnp, ?_⟩
     obtain ⟨u, hok⟩ := ok_of_panicOf hnp
     obtain ⟨fl, ht, hl, hno⟩ := g.good
     obtain ⟨h2, hnf⟩ := live_of_indexed ht hidx hlt
-    exact (opAdd_qkeep run p ht hl hno h2 hnf ha hreg hnd hin hrows hok).cache he
+    exact (opAdd_qkeep run p ht hl hno h2 hnf ha
+      (by rw [← ht.link.lenEq]; exact hlt) hreg hnd hin hrows hok).cache he
   | @query w fo extra _ hq ih =>
     obtain ⟨g, he⟩ := ih
     obtain ⟨l1, l2, q, visits, hd, g2, _⟩ :=
@@ -166,9 +176,9 @@ theorem reachB_qgood (run : ProbeRunner) {w : World} (r : ReachB run w) : QGood 
     obtain ⟨g, he⟩ := ih
     obtain ⟨_, g', hce⟩ := g.removeEntities run fo extra hc hr hfew hrows
     exact ⟨g', hce he⟩
-  | @setRelBatch w fo extra rels _ hc hr hne hnd hrt hval hfew hrows ih =>
+  | @setRelBatch w fo extra rels _ hc hr hne hnd hrt hval htin hfew hrows ih =>
     obtain ⟨g, he⟩ := ih
-    obtain ⟨_, g', hce⟩ := g.setRelationsBatch run fo extra hc hr hne hnd hrt hval hfew hrows
+    obtain ⟨_, g', hce⟩ := g.setRelationsBatch run fo extra hc hr hne hnd hrt hval htin hfew hrows
     exact ⟨g', hce he⟩
 
 /-- **C06 + C04 over histories, removal**: after every history (batches included), a batch
@@ -208,6 +218,7 @@ theorem reachB_setRelationsBatch (run : ProbeRunner) {w : World} (r : ReachB run
     {rels : List RelID} (hne : rels.isEmpty = false) (hnd : (rels.map (·.comp)).Nodup)
     (hrt : RelsTyped w fo.filter rels)
     (hval : ∀ (r : RelID), r ∈ rels → r.target.isZero = true ∨ w.alive r.target = true)
+    (htin : ∀ (r : RelID), r ∈ rels → r.target.id < w.pool.ents.length)
     (hfew : 2 * w.tables.length ≤ maxU32) (hrows : 2 * w.entities.length < 2 ^ 32) :
     ∃ (fl : List Nat) (ts : List Nat) (w' : World), getBatchTables fo extra w = .ok ts w ∧
       (∀ (e : Ent), e ∈ ts.flatMap (World.rowsOf w) ↔
@@ -231,7 +242,7 @@ theorem reachB_setRelationsBatch (run : ProbeRunner) {w : World} (r : ReachB run
     simp only [Lock.isLocked] at this ⊢
     rw [heq]; exact this
   obtain ⟨ts, w', h1, h2, h3, h4, h5⟩ := setRelationsBatch_eq_singles run h g.rows hl hno fo extra hc
-    hr hne hnd (fun t hlt hm _ => relCols_of_typed h.rel.sinv.toSInvMid hrt hlt hm.1) hval hcyc hl2
+    hr hne hnd (fun t hlt hm _ => relCols_of_typed h.rel.sinv.toSInvMid hrt hlt hm.1) hval htin hcyc hl2
     hfew hrows
   exact ⟨fl, ts, w', h1, h2, h3, h4, h5⟩
 
